@@ -203,6 +203,19 @@ asn1f_fix_constr_tag(arg_t *arg, int fix_top_level) {
 	case ASN_CONSTR_SET:
 	case ASN_CONSTR_CHOICE:
 		break;
+	case ASN_CONSTR_SEQUENCE_OF:
+	case ASN_CONSTR_SET_OF:
+		/*
+		 * The element type can be tagged as well: the module's
+		 * default tagging mode applies to it like to any other tag.
+		 */
+		TQ_FOR(v, &(expr->members), next) {
+			if(v->tag.tag_class == TC_NOCLASS)
+				continue;
+			if(_asn1f_fix_type_tag(arg, v))
+				r_value = -1;
+		}
+		return r_value;
 	default:
 		return 0;
 	}
